@@ -789,6 +789,10 @@ func (g *Gen) instrRecv(f *Frame, i *ssa.UnOp) {
 	if i.CommaOk {
 		okn := g.fresh(f.name(i) + ".ok")
 		g.declare(okn, "Bool")
+		// ok == false: the channel was closed and everything sent on it has been received (ghost "drained" flag)
+		g.compDecl("CHD", "(Array Int Bool)")
+		g.frameWrite("CHD", ch.S)
+		g.set(f.st, "CHD", fmt.Sprintf("(store %[1]s %[2]s (or (select %[1]s %[2]s) (not %[3]s)))", g.get(f.st, "CHD"), ch.S, okn))
 		f.tuples[i] = []Term{{v, g.d.sortOf(ct.Elem()), ct.Elem()}, {okn, "Bool", types.Typ[types.Bool]}}
 		return
 	}
